@@ -23,6 +23,9 @@ import EaselModel.Msa.LemmasPk5
 import EaselModel.Msa.LemmasFrag2
 import EaselModel.Msa.LemmasRc
 import EaselModel.Msa.LemmasWuss3
+import EaselModel.Msa.LemmasRbbFew
+import EaselModel.Msa.LemmasRfCons
+import EaselModel.Msa.LemmasFull2
 /-! # C15 — alignment transformations keep the alignment well formed and the residues intact; WUSS round trips
 
 Property theorems only; proofs are glue on the lemmas of `EaselModel/Msa/Lemmas*.lean`.
@@ -789,6 +792,28 @@ theorem reverseComplement_ss_pairs (a : Abc) (compl : List UInt8) (m : Msa) (wf 
     have hlen : s.length = m.alen := (wf.ss_ok (some s) (List.mem_of_getElem? hs) s rfl).1
     exact ⟨wussReverse s, by simp [rcMsa, hs], by rw [← hlen]; exact wussReverse_pairs' s ct h⟩
 
+/-- `esl_wuss_nopseudo` on a balanced WUSS string removes EXACTLY the pseudoknot-letter pairs: the result is balanced and
+    its table is the original one with the positions that carried a letter unpaired (`nopkCt`) — a nested table -/
+theorem wussNopseudo_pairs (ss : Bytes) (ct : List Nat) (h : wuss2ct ss = some ct) :
+    wuss2ct (wussNopseudo ss) = some (nopkCt ss ct) ∧ Nested (nopkCt ss ct) ∧
+    ∀ p, (nopkCt ss ct).getD p 0 = if isAlpha (ss.getD (p-1) 0) then 0 else ct.getD p 0 := by
+  have hA := wussNopseudo_pairs' ss ct h
+  refine ⟨hA, ?_, nopkCt_getD ss ct⟩
+  apply wuss2ct_nopk_nested' (wussNopseudo ss) _ _ hA
+  intro c hc
+  simp only [wussNopseudo, List.mem_map] at hc
+  obtain ⟨d, _, rfl⟩ := hc
+  unfold nopseudoChar
+  split
+  · decide
+  · rename_i hd; simpa using hd
+
+/-- `esl_wuss_full` on EVERY balanced WUSS string (pseudoknot letters included; `wussFull_nopk` was the letter-free case):
+    it returns `eslOK`, the full-format string has the same length and THE SAME pair table -/
+theorem wussFull_total (ss : Bytes) (ct : List Nat) (h : wuss2ct ss = some ct) :
+    ∃ full, wussFull ss = .ok full ∧ full.length = ss.length ∧ wuss2ct full = some ct :=
+  wussFull_total' ss ct h
+
 /-- `esl_wuss_reverse` is an involution on every string -/
 theorem wussReverse_involutive (ss : Bytes) : wussReverse (wussReverse ss) = ss :=
   wussReverse_wussReverse ss
@@ -957,6 +982,21 @@ theorem compaction_entry_points (m : Msa) (wf : m.WF) :
     · rw [if_pos hok]; simp only [noGapsText, if_true, hok, bne_self_eq_false, Bool.false_eq_true, if_false]
       exact text _ hl habc hok
     · rw [if_neg hok]; simp [noGapsText, hok]
+
+/-- UNCONDITIONAL FORM for structure annotation within the letter supply: when SS_cons and every per-sequence SS line is
+    balanced WUSS with at most 26 pseudoknotted pairs (`FewPkSS`; every letter-free line qualifies), the repair
+    `esl_msa_RemoveBrokenBasepairs` returns `eslOK` for EVERY mask — removing pairs never creates a pseudoknotted pair — so
+    a DNA/RNA `esl_msa_ColumnSubset` (and MinimGaps / NoGaps through `compaction_entry_points`) returns `eslOK`, the result
+    is well formed and carries exactly the surviving pairs (`compaction_pairs_exact`) -/
+theorem columnSubset_ok_of_few_pk (m : Msa) (mask : List Bool) (a : Abc) (wf : m.WF) (habc : m.abc = some a)
+    (hn : a.isNucleic = true) (hm : mask.length = m.alen)
+    (hc : ∀ b, m.ss_cons = some b → FewPkSS b) (hs : ∀ s b, s ∈ m.ss → s = some b → FewPkSS b) :
+    (removeBrokenBasepairs m mask).st = .ok ∧
+    columnSubset m mask = { msa := (removeBrokenBasepairs m mask).msa.colFilter mask, st := .ok } ∧
+    ((removeBrokenBasepairs m mask).msa.colFilter mask).WF := by
+  have hok := removeBrokenBasepairs_ok_few m mask hc hs
+  obtain ⟨h1, h2, _⟩ := (columnSubset_nucleic m mask a wf habc hn hm).1 hok
+  exact ⟨hok, h1, h2⟩
 
 /-! ## esl_msa_AddGS / AppendGR / AppendGC: the unparsed-markup constructors -/
 
@@ -1194,6 +1234,15 @@ theorem reasonableRF_shape_partial {W : Type} (A : WArith W) (hA : ∀ t, A.isCo
       rw [← hre]
       simpa [List.getD_eq_getElem?_getD] using hall r hr
 
+/-- `esl_msa_ReasonableRF(msa, symfrac, TRUE, rfline)` on a DIGITAL alignment (`esl_abc_FCount` into binary32 counts,
+    `esl_vec_FArgMax`; modelled line by line and compared exactly). PARTIAL: shape only (the threshold and the counts are
+    floating-point arithmetic, L0): `alen` characters, each `.` or the symbol of one of the `K` canonical residues — never
+    a gap, a degenerate or any other symbol. In text mode the C code dereferences `msa->abc == NULL` (caller contract). -/
+theorem reasonableRF_cons_shape_partial {W C : Type} (A : WArith W) (B : CArith W C) (m : Msa) (a : Abc) (wgt : List W)
+    (rf : Bytes) (habc : m.abc = some a) (hK : 0 < a.K) (h : reasonableRFCons A B m wgt = some rf) :
+    rf.length = m.alen ∧ ∀ c ∈ rf, c = 0x2e ∨ ∃ k, k < a.K ∧ c = a.sym.getD k 0 :=
+  reasonableRFCons_shape A B m a wgt rf habc hK h
+
 /-! ## esl_sq.c: conversions of a sequence object taken from an alignment -/
 
 /-- text -> digital -> text on a sequence (`esl_sq_Digitize`, `esl_sq_Textize`): every residue becomes the canonical
@@ -1340,5 +1389,17 @@ example : (ct2simplewuss [0, 3, 4, 1, 2]).toOption = some [0x3c, 0x41, 0x3e, 0x6
 
 example : wuss2ct (wussReverse [0x3c, 0x41, 0x3e, 0x61, 0x2e]) = some (mirrorCt 5 [0, 3, 4, 1, 2, 0]) ∧
     mirrorCt 5 [0, 3, 4, 1, 2, 0] = [0, 0, 4, 5, 2, 3] := by decide
+
+/-- a letter-free balanced line has no pseudoknotted pair at all; `<A>a` has one -/
+example : FewPkSS [0x3c, 0x3c, 0x2e, 0x3e, 0x3e] := ⟨[0, 5, 4, 0, 2, 1], by decide, by decide⟩
+example : FewPkSS [0x3c, 0x41, 0x3e, 0x61] := ⟨[0, 3, 4, 1, 2], by decide, by decide⟩
+
+/-- the excluded point of `reasonableRF_cons_shape_partial`, as the code stands: a text-mode alignment has no alphabet and
+    the call faults (known finding `C15:esl_msa_ReasonableRF:text-useconsseq-null-abc`) -/
+example : reasonableRFCons (W := Nat) (C := Nat) ⟨0, (· + ·), fun r _ => decide (r > 0)⟩ ⟨0, id, (· + ·), (· / ·), fun a b => decide (a > b)⟩
+    exMsa [1, 1] = none := by decide
+
+example : (wussFull [0x3c, 0x41, 0x3e, 0x61, 0x2e]).toOption = some [0x3c, 0x41, 0x3e, 0x61, 0x3a] ∧
+    wuss2ct (wussNopseudo [0x3c, 0x41, 0x3e, 0x61, 0x2e]) = some [0, 3, 0, 1, 0, 0] := by decide
 
 end EaselModel.Props.C15
